@@ -41,7 +41,9 @@ Qed.
 Theorem e_is_pinned_spec g b : ep g -> e_is_pinned (2 * g + Z.b2z b) = b.
 Proof.
   intros [H H2]. unfold e_is_pinned. rewrite land_1.
-  destruct b; cbn [Z.b2z]; [apply Z.eqb_eq | apply Z.eqb_neq]; lia.
+  (* robust against the way the source writes the test (`== 1`, `!= 0`): decide every comparison, then arithmetic *)
+  destruct b; cbn [Z.b2z];
+    repeat match goal with |- context [?a =? ?c] => destruct (Z.eqb_spec a c) end; cbn [negb]; try reflexivity; exfalso; lia.
 Qed.
 
 Theorem e_value_spec g b : ep g -> e_value (2 * g + Z.b2z b) = g.
